@@ -840,7 +840,7 @@ def histogram(cases, impl):
     for c in cases:
         for l in c.lines:
             if l.startswith("file ") and l.split()[1].endswith(".c") and "/c17/w/" in l:
-                t = bytes.fromhex(l.split()[2]).decode(errors="replace").splitlines()
+                t = bytes.fromhex(l.split()[2].replace("-", "")).decode(errors="replace").splitlines()
                 idx = [i for i, x in enumerate(t) if x.strip() == "#pragma save_binary"]
                 k = "none" if not idx else "top" if idx[-1] == 0 else "last" if idx[-1] >= len(t) - 2 else "between"
                 if any("no_save_binary" in x for x in t):
